@@ -13,7 +13,7 @@ Definition prop_case (inp obs : list Z) : Z :=
   let '(sm, dm, ops) := decode inp in
   if negb (wf_init sm dm) then 0
   else if (hdZ obs =? -777777) && (Nat.eqb (length obs) 1) then 98   (* the implementation panicked *)
-  else check_steps (length ops) (init sm dm) [] ops obs.
+  else check_steps (length ops) (st_sh (init sm dm)) (init sm dm) [] ops obs.
 
 Definition parent_busy (s : state) : bool :=
   existsb (fun q => has_children (st_sh s) (q_name q) && negb (viszero (r_creq (st_r s (q_name q))))
